@@ -1,4 +1,6 @@
 """Helpers shared by the rule scripts."""
+import re
+
 from vlib import factbase as fb
 from vlib.q import FnCtx
 
@@ -199,3 +201,40 @@ def recv_chain(c, e, depth=0):
                 continue
         break
     return names, e
+
+
+DROPPING_ADAPTERS = {"filter", "filter_map", "skip", "take", "take_while", "skip_while", "step_by", "nth", "last", "find", "find_map", "truncate", "retain", "dedup", "unique",
+                     "first", "pop", "remove", "swap_remove", "drain", "dedup_by", "dedup_by_key", "unique_by", "min", "max", "min_by", "max_by", "position"}
+
+
+def droppers_inventory(facts, rep, rid, fn_suffixes, audited, what):
+    """Audited inventory of dropping / truncating / de-duplicating sequence adapters in the given fns.  Keys use the rename-independent rendering of the adapter's
+    argument, so a NEW adapter gets a new key (and is reported) while renaming locals changes nothing.  `audited`: {(fn suffix, 'method(canonical arg)'): reason}."""
+    n = 0
+    for suffix in fn_suffixes:
+        f = facts.fn(suffix)
+        rep.saw_fn(f)
+        seen = {}
+        for x in fb.walk(f.body):
+            if x.get("k") != "mcall" or x["name"] not in DROPPING_ADAPTERS:
+                continue
+            cal = fb.callee(x) or ""
+            if not cal.startswith(("std::iter::", "core::iter::", "itertools::", "std::vec::", "alloc::vec::", "core::slice::", "rayon::", "std::collections::VecDeque")):
+                continue
+            arg = fb.show_canon(f, x["args"][0], maxdepth=30, inline=0).replace(" ", "")[:110] if x["args"] else ""
+            sig = re.sub(r"\bc\d+(\.\d+)?\b", "c", "%s(%s)" % (x["name"], arg))
+            k_ = seen.get(sig, 0)
+            seen[sig] = k_ + 1
+            n += 1
+            key = "%s|%s|%d" % (f.def_, sig, k_)
+            why = None
+            for (fs, sg), reason in audited.items():
+                sgn = re.sub(r"\bc\d+(\.\d+)?\b", "c", sg)
+                if f.def_.endswith(fs) and (sgn == sig or (len(sgn) >= 40 and sig.startswith(sgn.rstrip(")")))):
+                    why = reason
+            if why:
+                rep.ok(rid, key, "audited: " + why, loc(f, x), nontrivial=True)
+            else:
+                rep.violation(rid, key, "new dropping adapter `.%s` in %s: %s that the library contains would be left out of the answer; if it is intended, audit it with a reason" % (
+                    sig[:80], fb.last2(f.def_), what), loc(f, x))
+    return n
